@@ -298,6 +298,35 @@ TRANSLATED = {
  "C20": "Translation tie: coro_get_frame, _asyncgen_frame_state, coro_is_new/suspended/finished are re-translated from the source on every run, together with "
         "inspect.get*state from the verbatim CPython 3.12 text, over an object view, and proved equal to the model's helpers on the whole kind x phase table, "
         "every prologue length and frame position (GenEqC20, 11 theorems).",
+ "C01": "Translation tie: CoroStart (_start, done, result, as_future, close, throw, __await__ segment by segment), _Continuation.send/throw, coro_eager, "
+        "func_eager, eager, eager_ctx and tools.cancelling are re-translated from the source on every run (translator/corostart2lean.py) and proved equal "
+        "to the kernel model's eagerRun/contResume and to the protocol model's CoroStart transformer (GenEqC01 16 theorems, GenEqC01W 15).",
+ "C03": "Translation tie: _Continuation.throw's cancel-before-first-step decision, CoroStart.__await__'s relay segments and tools.cancelling's exit path are "
+        "re-translated from the source on every run and proved equal to the model's contResume / cancelling transitions (GenEqC01: cont_eq, unstarted_eq, "
+        "relay_eq, cancelling_eq).",
+ "C02": "Translation tie: coro_iter (start/resume segments and the assembled generator object), coro_await, awaitmethod, awaitmethod_iter are re-translated from "
+        "the source on every run (translator/wrappers2lean.py) and proved equal to the model's wrapper transformers (GenEqC02, 10 theorems, incl. "
+        "coro_iter_obj_transparent); CoroStart itself by GenEqC01W, Monitor.aawait/BoundMonitor by GenEqC07.",
+ "C05": "Translation tie: await_sync, syncfunction and aiter_sync are re-translated from the source on every run and proved equal to the model's awaitSync / "
+        "aiterSync (GenEqC05, 7 theorems); CoroStart.throw/close (incl. the handshake-flag clearing of fix 7bda94b) by GenEqC01/GenEqC01W.",
+ "C06": "Translation tie: GeneratorObject.ayield and GeneratorObjectIterator._first_iter/__del__/__anext__/asend/athrow/aclose/_athrow are re-translated from the "
+        "source on every run, entry and resumption segments, and proved equal to the model's goiStart/goiResume/hook transitions (GenEqC06, 22 theorems).",
+ "C07": "Translation tie: Monitor.oob, _asend (entry and every resumption of the relay loop by send/throw/GeneratorExit, with its finally), aawait, athrow, aclose, "
+        "start, try_await and the six BoundMonitor methods are re-translated from the source on every run (translator/monitor2lean.py) and proved equal to "
+        "the model's asendStart/asendResume/callStart/callResume/boundStart/boundResume (GenEqC07, 46 theorems).",
+ "C11": "Translation tie: PriorityTask/PriorityLock effective_priority and propagate_priority (mutually recursive, with a recursion bound) and the acquire segments "
+        "are re-translated from the source on every run (translator/lock2lean.py) and proved equal to the model's effT/effL, propT/propL and events (GenEqLock, 52 theorems).",
+ "C12": "Translation tie: PriorityLock.release, _wake_up_first, _take_lock, propagate_priority and the three acquire segments (incl. the give-up path that re-keys "
+        "the owner) are re-translated from the source on every run and proved equal to the model's events in every reachable state (GenEqLock).",
+ "C13": "Translation tie: PriorityLock.acquire (entry, resumed by the future, resumed by any exception incl. the finally clause and the wake-up pass-on), release "
+        "(by the owner and refused otherwise), _wake_up_first and _take_lock are re-translated from the source on every run and proved equal to the model's "
+        "acquire/resume/release/badRelease events in every reachable state (GenEqLock, 52 theorems).",
+ "C14": "Translation tie: PriorityCondition._notify/notify/wait (with _released inlined: entry, wake, re-acquire raising, finish with the _notify(1) hand-over) and "
+        "InterruptCondition.wait are re-translated from the source on every run (translator/cond2lean.py over the symbolic executor segexec.py) and proved "
+        "equal to the model's waitStart/wake/acqExc/finish/notify transitions (GenEqC14, 19 theorems).",
+ "C16": "Translation tie: task_timeout (enter, exit normally, exit by exception = one level of the unwinding with the identity test, trigger_timeout, the six "
+        "interruptor segments of the three-try loop) is re-translated from the source on every run (translator/timeout2lean.py) and proved equal to the "
+        "model's enter/exitOk/exitOther/fire/istep transitions (GenEqC16, 29 theorems).",
  "C04": "Translation tie: CoroStart._resume and, for each of the eight entry points, whether every coro.send/throw/close goes through it, and coro_eager's "
         "copy_context(), are read off the source on every run and proved equal to the model's context selection (GenEqC04, 6 theorems).",
 }
